@@ -24,3 +24,27 @@ Print Assumptions C12_supported_actions.
 Theorem C12_specialize_threshold : specializes 0 = false /\ specializes 1 = true /\ specializes 2 = true.
 Proof. exact specialize_threshold. Qed.
 Print Assumptions C12_specialize_threshold.
+
+(* ---- the advance a 'CFF ' table carries (the "identical advance widths" clause) ----
+   getCharStringForGlyph encodes the advance relative to (defaultWidthX, nominalWidthX), setupTable_CFF writes those
+   into the Private dict only when non-zero, a reader decodes with the Private dict (absent = 0): for EVERY advance
+   (fractional too) and every pair of values -- computed by optimizeWidths or given in fontinfo -- the decoded advance is
+   the rounded source advance, i.e. the hmtx one.  (CFF2 carries no widths in charstrings.) *)
+From Coq Require Import QArith Qcanon.
+From U2F Require Import Geometry.Model Cff.Width Cff.WidthProofs.
+
+Theorem C12_cff_charstring_width_roundtrip : forall (w : Qc) (d n : Z), cff_advance w d n = otRound w.
+Proof. exact cff_width_roundtrip. Qed.
+Print Assumptions C12_cff_charstring_width_roundtrip.
+
+Example C12_width_roundtrip_nontrivial :
+  cff_advance (Q2Qc (999 # 2)) 0 543 = 500 /\ encode_width (Q2Qc (999 # 2)) 0 543 = Some (-43) /\
+  cff_advance (qc_of_Z 0) 0 543 = 0 /\ encode_width (qc_of_Z 0) 0 543 = None.
+Proof. exact roundtrip_nontrivial. Qed.
+Print Assumptions C12_width_roundtrip_nontrivial.
+
+(* writing nominalWidthX only under `if defaultWidthX:` (seeded change C12-sub4) loses the advance *)
+Example C12_nested_private_write_refuted :
+  decode_width (write_private_nested 0 543) (encode_width (qc_of_Z 620) 0 543) <> otRound (qc_of_Z 620).
+Proof. exact nested_write_loses_the_advance. Qed.
+Print Assumptions C12_nested_private_write_refuted.
